@@ -561,9 +561,10 @@ sign<Number> sign<Number>::operator/(const sign<Number> &o) const {
   } else if (not_equal_zero() || o.not_equal_zero()) {
     return top();
   } else {
-    // Once we exclude top, bottom, zero, and non-zero
-    // signed division is like multiplication
-    return (*this) * o;
+    // Once we exclude top, bottom, zero, and non-zero signed
+    // division is like multiplication except that the quotient is
+    // truncated: the result can also be zero (e.g., -1 / -2 = 0).
+    return ((*this) * o) | sign<Number>(sign_interval::EQZ);
   }
 }
 
